@@ -13,7 +13,8 @@ for sid in sorted(os.listdir(os.path.join(HERE, 'seeded'))):
     rows.append('| %s | %s | %s | %s | %s |' % (
         sid, m.get('mechanism', '').replace('|', '/'),
         m.get('needs_to_manifest', '').replace('|', '/'),
-        caught or '**not caught**',
+        (caught + ' - before repair 49a89d8 neutralised it'
+         if m.get('neutralised_by') else caught) or '**not caught**',
         m.get('added_to_checks', '').replace('|', '/')))
 print('| seed | change | needs in order to manifest | caught by (quick tier, time to first violation) | added to the checks because of it |')
 print('|---|---|---|---|---|')
